@@ -197,7 +197,7 @@ Proof.
 Qed.
 
 (* ---- non-vacuity ---- *)
-Definition ex_cfg : cfg := {| cap := 3; ksz := 2; fixed := false |}.
+Definition ex_cfg : cfg := {| cap := 3; ksz := 2; fixed := false; nb := 15 |}.
 Definition ex_ops : list op :=
   (* constant hash 7: every key in bucket 7; fill, overflow, remove from the middle of the chain, re-add *)
   [OAdd [1] 7; OAdd [2] 7; OAdd [1;1] 7; OLen; OAdd [3] 7; OExist [2] 7; ORemove [2] 7; OExist [2] 7;
@@ -209,7 +209,7 @@ Lemma ex_run :
   /\ Forall (consistent (fun _ => 7)) ex_ops.
 Proof. split; [vm_compute; reflexivity|]. split; [vm_compute; reflexivity|]. split; [vm_compute; reflexivity|]. repeat constructor. Qed.
 Lemma ex_fixed_short :
-  let c := {| cap := 2; ksz := 2; fixed := true |} in
+  let c := {| cap := 2; ksz := 2; fixed := true; nb := 10 |} in
   snd (run_ops c (init c) [OAdd [1;1] 1; OAdd [1] 1; OLen; OExist [1] 1; OExist [1;1] 1; ORemove [1] 1; OLen])
   = [0; 3; 1; 0; 1; 0; 1].
 Proof. vm_compute. reflexivity. Qed.
